@@ -11,6 +11,10 @@
 (* W is WriteRec, R is Return; the underlying Reads (Chunk) are not observed and are silent      *)
 (* steps - the returned values do not depend on them, so only the largest chunk is tried.        *)
 (* Real lengths are mapped onto the model's 0..Buf+1 by Alpha, which keeps =0, <=buf and >buf.   *)
+(* The design invariants are established on RecordLayer itself (RecordLayer_mc.cfg); here the    *)
+(* conformance conditions sit in the guards of TWrite / TReturn / TEnd (the returned value must  *)
+(* equal Expected(i), ids must be consecutive per writer, nothing may be missing at the end), so *)
+(* the cfg only lists the cheap TypeOK: InOrderWhole / NoInterleave cost O(history) per state.   *)
 EXTENDS RecordLayer, TLC, Json, IOUtils
 
 Trace == ndJsonDeserialize(IOEnv.VERIF_TRACE)
